@@ -551,8 +551,74 @@ let macro_mode (casesf : string) (outf : string) =
    with End_of_file -> ());
   close_in ic; close_out oc
 
+
+(* ====================================================================================
+   --emit-coq: replay the first histories of an ops file and write a Coq file in which the
+   kernel itself (vm_compute inside coqc) re-evaluates [run] on the same resolved operation lists
+   and checks that it reaches the arena the extracted code reached.  This cross-checks extraction
+   and this driver against Coq's own evaluation of the model.
+   ==================================================================================== *)
+let c_nat k = string_of_int (int_of_nat k) ^ "%nat"
+let c_z v = "(" ^ string_of_int (int_of_z v) ^ ")%Z"
+let c_n v = string_of_int (int_of_n v) ^ "%N"
+let c_id (x : nid) = Printf.sprintf "(mkId %s %s)" (c_nat x.idx) (c_z x.gen)
+let c_oid = function None -> "None" | Some x -> "(Some " ^ c_id x ^ ")"
+let c_onat = function None -> "None" | Some k -> "(Some " ^ c_nat k ^ ")"
+let c_kind = function KAppend -> "KAppend" | KPrepend -> "KPrepend" | KAfter -> "KAfter" | KBefore -> "KBefore"
+let c_op = function
+  | ONew v -> "ONew " ^ c_n v
+  | OAppendValue (p, v) -> Printf.sprintf "OAppendValue %s %s" (c_id p) (c_n v)
+  | OInsert (k, chk, x, c) -> Printf.sprintf "OInsert %s %s %s %s" (c_kind k) (if chk then "true" else "false") (c_id x) (c_id c)
+  | ODetach x -> "ODetach " ^ c_id x | ORemove x -> "ORemove " ^ c_id x | ORemoveSubtree x -> "ORemoveSubtree " ^ c_id x
+  | OWrite (x, v) -> Printf.sprintf "OWrite %s %s" (c_id x) (c_n v)
+  | OClear -> "OClear" | OReserve k -> "OReserve " ^ c_nat k
+let c_node (nd : node) =
+  Printf.sprintf "mkNode %s %s %s %s %s %s %s" (c_oid nd.parent) (c_oid nd.prev) (c_oid nd.next) (c_oid nd.first)
+    (c_oid (node_last nd)) (c_z nd.stamp)
+    (match nd.data with Data v -> "(Data " ^ c_n v ^ ")" | NextFree o -> "(NextFree " ^ c_onat o ^ ")")
+let c_arena (a : arena) =
+  Printf.sprintf "(mkArena [%s] %s %s)" (String.concat "; " (List.map c_node a.nodes)) (c_onat a.ffree) (c_onat a.lfree)
+
+let emit_coq (opsf : string) (outf : string) (maxhist : int) =
+  let ic = open_in opsf and oc = open_out outf in
+  Printf.fprintf oc "(* GENERATED by runner --emit-coq: kernel re-evaluation of extracted runs *)\nFrom IT Require Import Monitor.\n";
+  let n = ref 0 and acc : string list ref = ref [] and active = ref false and simple = ref true in
+  let flush_hist () =
+    if !active && !simple && !acc <> [] then begin
+      Printf.fprintf oc "Example emit_%d : arena_eqb (ar (run %s [%s] init)) %s = true.\nProof. vm_compute. reflexivity. Qed.\n"
+        !n (if !dbg then "true" else "false") (String.concat "; " (List.rev !acc)) (c_arena !cur.w.ar);
+      incr n
+    end in
+  (try
+     while !n < maxhist do
+       let line = String.trim (input_line ic) in
+       let toks = String.split_on_char ' ' line in
+       (match toks with
+        | ["hist"; _] -> flush_hist (); ignore (process line); acc := []; active := true; simple := true
+        | ["fork"] | ["swap"] | ["serde"] -> simple := false; ignore (process line)
+        | _ ->
+            (* record the resolved op before executing it *)
+            let o = (match toks with
+              | ["new"; v] -> Some (ONew (n_of_int (int_of_string v)))
+              | ["appv"; p; v] -> (match handle (int_of_string p) with Some x -> Some (OAppendValue (x, n_of_int (int_of_string v))) | None -> None)
+              | [("app" | "pre" | "ia" | "ib") as k; a; b] -> (match handle (int_of_string a), handle (int_of_string b) with Some x, Some y -> Some (OInsert (inskind_of k, false, x, y)) | _ -> None)
+              | [("capp" | "cpre" | "cia" | "cib") as k; a; b] -> (match handle (int_of_string a), handle (int_of_string b) with Some x, Some y -> Some (OInsert (inskind_of k, true, x, y)) | _ -> None)
+              | ["det"; a] -> (match handle (int_of_string a) with Some x -> Some (ODetach x) | None -> None)
+              | ["rem"; a] -> (match handle (int_of_string a) with Some x -> Some (ORemove x) | None -> None)
+              | ["rst"; a] -> (match handle (int_of_string a) with Some x -> Some (ORemoveSubtree x) | None -> None)
+              | ["wr"; a; v] -> (match handle (int_of_string a) with Some x -> Some (OWrite (x, n_of_int (int_of_string v))) | None -> None)
+              | ["clear"] -> Some OClear
+              | ["reserve"; k] -> Some (OReserve (nat_of_int (int_of_string k)))
+              | _ -> None) in
+            (match o with Some o -> acc := c_op o :: !acc | None -> ());
+            if toks = ["end"] then (flush_hist (); active := false);
+            ignore (process line))
+     done
+   with End_of_file -> flush_hist ());
+  close_in ic; close_out oc
+
 let () =
-  let ops = ref "" and obs = ref "" and mon = ref "" and out = ref "" and stamps = ref "" and macro = ref "" in
+  let ops = ref "" and obs = ref "" and mon = ref "" and out = ref "" and stamps = ref "" and macro = ref "" and emit = ref "" in
   let args = Array.to_list Sys.argv in
   let rec parse = function
     | "--ops" :: f :: r -> ops := f; parse r
@@ -561,10 +627,12 @@ let () =
     | "--out" :: f :: r -> out := f; parse r
     | "--stamps" :: f :: r -> stamps := f; parse r
     | "--macro" :: f :: r -> macro := f; parse r
+    | "--emit-coq" :: f :: r -> emit := f; parse r
     | "--dbg" :: v :: r -> dbg := (v = "1"); parse r
     | _ :: r -> parse r
     | [] -> () in
   parse (List.tl args);
+  if !emit <> "" then begin emit_coq !ops !emit 25; exit 0 end;
   if !macro <> "" then begin macro_mode !macro !out; exit 0 end;
   if !stamps <> "" then begin
     (* exhaustive table of the four NodeStamp functions over all i16 values (C06) *)
